@@ -58,7 +58,7 @@ func (o cop) String() string {
 func genScenario(t *simrt.Tape, n int) []cop {
 	var ops []cop
 	if t.Choose(4) == 3 {
-		ops = append(ops, cop{Kind: opAuthPlain})
+		ops = append(ops, cop{Kind: opAuthPlain, A: t.Choose(2)})
 	} else {
 		ops = append(ops, cop{Kind: opLogin})
 	}
@@ -297,7 +297,11 @@ func (cr *clientRunner) issue(o cop) {
 		later("LOGIN", func() (error, string) { return cmd.Wait(), "" })
 	case opAuthPlain:
 		rec := cr.rec(o, "AUTHENTICATE")
-		err := c.Authenticate(sasl.NewPlainClient("", "user", "pass"))
+		mech := sasl.NewPlainClient("", "user", "pass")
+		if o.A%2 == 1 {
+			mech = sasl.NewLoginClient("user", "pass") // two challenges, each non-empty
+		}
+		err := c.Authenticate(mech)
 		cr.finish(rec, err, "")
 	case opNoop:
 		cmd := c.Noop()
